@@ -1326,13 +1326,14 @@ impl<Sink: TokenSink> XmlTokenizer<Sink> {
         // Check for a duplicate attribute.
         // FIXME: the spec says we should error as soon as the name is finished.
         // FIXME: linear time search, do we care?
+        // Compare qualified names: `p:x` and `x` are different attributes, and a
+        // repeated `p:x` is a duplicate.
         let dup = {
-            let current_attr_name = self.current_attr_name.borrow();
-            let name = &current_attr_name[..];
+            let name = process_qname(self.current_attr_name.borrow().clone());
             self.current_tag_attrs
                 .borrow()
                 .iter()
-                .any(|a| &*a.name.local == name)
+                .any(|a| a.name == name)
         };
 
         if dup {
